@@ -33,7 +33,7 @@ ASSUMPTIONS = [
     "conditions are checked at expectation level only",
 ]
 TIMEOUT = {"quick": 40, "thorough": 120}
-DEADLINE = {"quick": 100, "thorough": 1500}
+DEADLINE = {"quick": 100, "thorough": 1000}
 MIN_DECIDING = {"quick": 40, "thorough": 300}
 NCASES = {"quick": 200, "thorough": 3500}
 
